@@ -559,9 +559,11 @@ def classify_enum_phantom(tree, cls: ast.ClassDef, kind, name):
     return "phantom-enum-get:unrelated-name"
 
 
-def judge_entry(tree, cands, key_kind, key_name, ir):
+def judge_entry(tree, cands, key_kind, key_name, ir, allowed_fn=None, classify_fn=None):
     """ir: {"gets": [full...], "sets": [...], "dels": [...], "calls": [name-without-brackets...]}.
-    Returns (verdict tag, [violation dicts])."""
+    Returns (verdict tag, [violation dicts]).
+    `allowed_fn(tree, candidate)` (optional, default `allowed_of`): the upper bound of one candidate;
+    `classify_fn(tree, candidate, kind, name)` (optional): a signature for an unjustified name of a callable, or None."""
     cs = cands.get(key_name, [])
     if not cs:
         if not any(ir[k] for k in ("gets", "sets", "dels", "calls")):
@@ -572,7 +574,7 @@ def judge_entry(tree, cands, key_kind, key_name, ir):
     cs = sorted(cs, key=lambda c: c.lineno)
     verdicts = []
     for c in cs:
-        allowed = allowed_of(c)
+        allowed = allowed_of(c) if allowed_fn is None else allowed_fn(tree, c)
         if allowed is None:
             return "declared-not-literal", []
         bad = []
@@ -611,6 +613,8 @@ def judge_entry(tree, cands, key_kind, key_name, ir):
             sig = f"phantom-namedtuple-{kind}"
         elif c.kind == "declared":
             sig = f"phantom-declared-{kind}"
+        elif classify_fn is not None and (own := classify_fn(tree, c, kind, n)) is not None:
+            sig = own
         elif (part := sigspec.only_in_signature(c.node, kind, n, cls=c.cls if c.kind in ("init", "static") else None,
                                                  assign=c.assign)) is not None:
             # the name is mentioned by the definition's OWN signature (defaults / annotations / decorators / class header),
@@ -721,13 +725,17 @@ def flush_model(res, model, deferred):
 
 
 def run_project(res, model, root, files, shape, pi, cli_allowed, tag="cls", always_cli=False, free_by_source=False,
-                nontrivial_kinds=("enum", "static", "init", "namedtuple"), deferred=None):
+                nontrivial_kinds=("enum", "static", "init", "namedtuple"), deferred=None, allowed_fn=None, classify_fn=None,
+                free_fn=None, out=None, with_results=None):
     """One project through (1) FileAnalyser vs the Lean model per file, (2) the real pipeline in-process,
     (3) the CLI (when `cli_allowed` and the project has an enum / namedtuple family, is curated, or `always_cli`),
     then the source-only oracle on every view. Returns (entries judged, whether the CLI was used).
     `deferred` (a list): the model half of (1) is postponed — the caller runs `flush_model` once at the end.
     `free_by_source`: the entries whose `-o ir` / `-o results` output must equal their own IR are chosen by the SOURCE
-    (no call node in the body) instead of by the in-process snapshot."""
+    (no call node in the body) instead of by the in-process snapshot.
+    `allowed_fn` / `classify_fn`: see `judge_entry`. `free_fn(tree, candidates, name)`: chooses those entries instead.
+    `with_results` (None: as always, i.e. every second project or `always_cli`): whether `-o results` is run too.
+    `out` (a dict): receives the `-o ir` document under "cli_ir" and the in-process snapshot under "snapshot"."""
     judged = 0
     used_cli = False
     write_project(root, files)
@@ -756,6 +764,8 @@ def run_project(res, model, root, files, shape, pi, cli_allowed, tag="cls", alwa
     snap = pipeline_inprocess(root)
     res.evaluations += 1
     res.count(f"{tag}:pipeline:" + snap["outcome"])
+    if out is not None:
+        out["snapshot"] = snap
     views = []
     if snap["outcome"] == "ok":
         views.append(("in-process", "target.py", snap["target"]))
@@ -777,6 +787,8 @@ def run_project(res, model, root, files, shape, pi, cli_allowed, tag="cls", alwa
                                            "pipeline": a[:6], "file_analyser": b[:6]})
 
     def free_names(rel, entries):
+        if free_fn is not None:
+            return {e["name"] for e in entries if free_fn(trees[rel], cands[rel], e["name"])}
         if free_by_source:
             return {e["name"] for e in entries if source_call_free(cands[rel], e["name"])}
         return {e["name"] for e in entries if not e["ir"]["calls"]}
@@ -788,6 +800,8 @@ def run_project(res, model, root, files, shape, pi, cli_allowed, tag="cls", alwa
         r = cli(root, "ir")
         res.evaluations += 1
         res.count(f"{tag}:cli-ir:exit%d" % r["exit"])
+        if out is not None:
+            out["cli_ir"] = r["doc"]
         if r["doc"] is not None:
             # `-o ir` is printed AFTER result generation, which inlines callees into the IR in place: only the
             # entries that are call-free at the snapshot point still show their own IR there
@@ -798,7 +812,7 @@ def run_project(res, model, root, files, shape, pi, cli_allowed, tag="cls", alwa
                 if MODULE_FILE.get(mod) in files and mod in snap["imports"]:
                     free = free_names(MODULE_FILE[mod], snap["imports"][mod])
                     views.append(("cli-ir:import:call-free", MODULE_FILE[mod], [e for e in entries if e["name"] in free]))
-        if pi % 2 == 0 or always_cli:
+        if (pi % 2 == 0 or always_cli) if with_results is None else with_results:
             r = cli(root, "results")
             res.evaluations += 1
             res.count(f"{tag}:cli-results:exit%d" % r["exit"])
@@ -813,7 +827,7 @@ def run_project(res, model, root, files, shape, pi, cli_allowed, tag="cls", alwa
     # ---- the oracle on every view
     for route, rel, entries in views:
         for e in entries:
-            verdict, bad = judge_entry(trees[rel], cands[rel], e["kind"], e["name"], e["ir"])
+            verdict, bad = judge_entry(trees[rel], cands[rel], e["kind"], e["name"], e["ir"], allowed_fn, classify_fn)
             judged += 1
             res.evaluations += 1
             res.count(f"{tag}:entry:{route.split(':')[0]}:{verdict}")
